@@ -3,6 +3,7 @@ import DnsVerif.Props.C04
 #print axioms DnsVerif.Props.C04.spec_foreign_edit_invariant
 #print axioms DnsVerif.Props.C04.serve_v1_frame
 #print axioms DnsVerif.Props.C04.st1_st2_agree
+#print axioms DnsVerif.Props.C04.serve_v2_frame
+#print axioms DnsVerif.Props.C04.vs1_vs2_agree
 #print axioms DnsVerif.Props.C04.v2A_v2B_agree
-#print axioms DnsVerif.Props.C04.v2A_v2B_differ
-#print axioms DnsVerif.Props.C04.serve_v2_frame_full_false
+#print axioms DnsVerif.Props.C04.v2A_v2B_same
